@@ -212,6 +212,10 @@ def gen_load_case(rng, big):
     case.update(gen_args(rng, frames))
     if rng.random() < 0.25:
         apply_edge(rng, case, rng.choice(EDGES))
+    # history: the same import done once before and its result edited in place (what a caller does with a loaded pose:
+    # focus(), renaming, resizing) - the import under test must still record what was requested
+    if rng.random() < 0.3:
+        case["prior"] = rng.choice(["focus", "dims-inplace", "dims-replace", "body-edit"])
     return case
 
 
@@ -288,7 +292,7 @@ class C19(common.Prop):
         fr = case["frames"] if k == "load" else [[0, e[1]] for e in case["entries"]]
         mp = max([len(f[1]) for f in fr], default=0)
         nf = case["num_frames"]
-        return (k, case["edge"], "nf=None" if nf is None else "nf", "P=%d" % mp, "fps=" + type(case["fps"]).__name__)
+        return (k, case["edge"], "nf=None" if nf is None else "nf", "P=%d" % mp, "fps=" + type(case["fps"]).__name__, "after:" + case.get("prior", "-"))
 
     def nontrivial(self, case):
         k = case["kind"]
@@ -327,6 +331,8 @@ class C19(common.Prop):
             r = self.call(lambda: self.op.get_frame_id(case["name"], self.op.OPENPOSE_FRAME_PATTERN))
         elif k == "load":
             frames = {fid: {"version": 1.3, "people": people} for fid, people in case["frames"]}
+            if case.get("prior"):
+                self.prior_import(case, frames)
             r = self.call(lambda: self.dump_pose(self.op.load_openpose(
                 frames, fps=case["fps"], width=case["width"], height=case["height"], depth=case["depth"], num_frames=case["num_frames"])))
         else:
@@ -341,6 +347,31 @@ class C19(common.Prop):
                                                         depth=case["depth"], num_frames=case["num_frames"])))
         case["_impl"] = r
         return r
+
+    def prior_import(self, case, frames):
+        """an earlier import with the same arguments whose result is then edited by its owner"""
+        try:
+            p0 = self.op.load_openpose(dict(frames), fps=case["fps"], width=case["width"], height=case["height"],
+                                       depth=case["depth"], num_frames=case["num_frames"])
+        except Exception:
+            return
+        try:
+            k = case["prior"]
+            if k == "focus":
+                p0.focus()
+            elif k == "dims-inplace":
+                p0.header.dimensions.width = 3
+                p0.header.dimensions.height = 4
+                p0.header.dimensions.depth = 5
+            elif k == "dims-replace":
+                p0.header.dimensions = type(p0.header.dimensions)(11, 12, 13)
+            else:
+                p0.body.fps = 1.5
+                if p0.body.data.size:
+                    p0.body.data[...] = 7.0
+                    p0.body.confidence[...] = 0.5
+        except Exception:
+            pass
 
     # ---- model
     @staticmethod
